@@ -50,11 +50,87 @@ def category(f: FuncInfo, t) -> Tuple[str, Set[str], Set[str], Optional[str]]:
     return 'other user / external code', {'excepted-state', 'callback_excepted', 'transition_failed'} | set(FUTURE_SINKS), PUBLIC, None
 
 
+def reraised_ahead_of_catch_all(chk: Check, rule: str) -> None:
+    """What a function re-raises AHEAD of its catch-all is, by construction, not treated as a failure: that is right only for exceptions outside Exception and for the
+    package's own signals that a caller handles by name.  (Shared with C10: the failure of a cancelled awaitable is a concurrent.futures.CancelledError.)"""
+    prog = chk.prog
+    # what is re-raised AHEAD of a catch-all is not a failure of user code: only exceptions outside Exception (KeyboardInterrupt, the event loop's own CancelledError)
+    # may be let through -- kiwipy's / concurrent.futures' CancelledError IS an Exception (it is what a cancelled awaitable puts on the waiting future)
+    from ..esc import Esc as _Esc
+    from ..rules import effective_funcs as _ef
+    BASE_ONLY = ('KeyboardInterrupt', 'SystemExit', 'GeneratorExit', 'BaseException', 'asyncio.CancelledError', 'asyncio.exceptions.CancelledError')
+    n_re = 0
+    for f in _ef(prog):
+        if isinstance(f.node, ast.Lambda):
+            continue
+        for t in [n for b in f.node.body for n in walk_shallow(b) if isinstance(n, ast.Try)]:
+            idx = [i for i, h in enumerate(t.handlers) if h.type is None or unparse(h.type).split('.')[-1] == 'Exception']
+            if not idx:
+                continue
+            for h in t.handlers[:idx[0]]:
+                if not _Esc._just_reraises(h):
+                    continue
+                for ty in (h.type.elts if isinstance(h.type, ast.Tuple) else [h.type]):
+                    n_re += 1
+                    k = prog.resolve_class(f.module, ty)
+                    txt = norm(ty)
+                    if k is not None:
+                        inside = any(str(b).split('.')[-1] == 'Exception' for b in k.mro())
+                        if inside:
+                            # one of the package's own signals (an Interruption): fine when every way up from here ends in a handler written for it
+                            rs = [x for s_ in h.body for x in ast.walk(s_) if isinstance(x, ast.Raise)]
+                            outs = _Esc(chk.ctx).trace_class(f, rs[-1], k) if rs else []
+                            inside = not outs or not all(o.kind == 'contained' and o.container is not None and o.container.kind == 'except'
+                                                         and isinstance(o.container.node, ast.ExceptHandler) and o.container.node.type is not None
+                                                         and unparse(o.container.node.type).split('.')[-1] not in ('Exception', 'BaseException') for o in outs)
+                    else:
+                        try:
+                            r_ = prog.resolve(f.module, ty)
+                        except Exception:  # noqa: BLE001
+                            r_ = None
+                        txt2 = norm(r_) if isinstance(r_, ast.AST) else txt
+                        inside = not (txt in BASE_ONLY or txt2 in BASE_ONLY)
+                    chk.ob(rule, f, not inside, f'{f.short} re-raises {txt} ahead of its catch-all: ' + ('not an Exception, so not a failure of user code' if not inside else
+                           'an Exception (or not known to be outside it) -- a failure of this type raised by user code, or put on the awaited future by a cancelled awaitable, '
+                           'leaves the stepping code instead of ending the process EXCEPTED'), node=h, kind='reraised-ahead-of-catch-all', expr=txt)
+    chk.floor(f'{rule}:reraised-ahead', n_re, 1)
+
+
+def exception_in_flight_kept(chk: Check, rule: str) -> None:
+    """"... with exactly that exception": a ``finally`` block runs on the exception edge too.  Where the protected body can run user code (a hook, a step, a callback),
+    the block neither raises nor asserts nor returns: any of these REPLACES (or swallows) the user's exception in flight -- the process would end EXCEPTED with an
+    AssertionError about bookkeeping instead of the failure that happened."""
+    from ..model import walk_shallow_stmt
+    from ..rules import effective_funcs
+    prog = chk.prog
+    n = 0
+    for f in effective_funcs(prog):
+        if isinstance(f.node, ast.Lambda):
+            continue
+        tries = [t for st in f.node.body for t in walk_shallow_stmt(st) if isinstance(t, ast.Try) and t.finalbody]
+        if not tries:
+            continue
+        try:
+            ip = chk.ctx.calls.summary(f).ip
+        except Exception:  # noqa: BLE001
+            ip = True
+        for t in tries:
+            if not ip or not any(isinstance(x, (ast.Call, ast.Await)) for b in t.body for x in walk_shallow_stmt(b)):
+                continue
+            n += 1
+            bad = [x for b in t.finalbody for x in walk_shallow_stmt(b) if isinstance(x, (ast.Assert, ast.Raise, ast.Return))]
+            chk.ob(rule, f, not bad, f'{f.short}: the finally block of a try whose body may run user code only restores state' + ('' if not bad else
+                   f' -- it does not: `{norm(bad[0])[:80]}` runs while the user\'s exception is in flight and replaces (or swallows) it'), node=bad[0] if bad else t, kind='finally-does-not-raise',
+                   expr=f'finally of the try at statement `{norm(t.body[0])[:60]}`')
+    chk.floor(f'{rule}:finally-blocks', n, 4)
+
+
 def run(chk: Check) -> None:
     containment(chk)
     construction_propagates(chk)
     pair_flags(chk)
     prov_failure_states(chk)
+    exception_in_flight_kept(chk, 'ESC-exception-kept')
     # "... with its future raising it": the EXCEPTED entry resolves the process future whatever happened to it before (shared with C02)
     from .c02 import future_resolution
     future_resolution(chk)
@@ -144,6 +220,7 @@ def containment(chk: Check) -> None:
                    for h in t.handlers):
             continue  # no catch-all in this function: nothing can be mistaken for a failure here
         chk.ob('ESC-handler-order', f, ok, 'an Interruption is told apart from a failure (its handler precedes the catch-all)', kind='interruption-first')
+    reraised_ahead_of_catch_all(chk, 'ESC-handler-order')
     # step(): the catch-all does not re-raise ("stepping returns normally")
     for t in [n for n in ast.walk(st.node) if isinstance(n, ast.Try)]:
         for h in t.handlers:
